@@ -475,3 +475,56 @@ def j7(rep, F):
                             % (G.short(owner), side, m_, "read" if side == "written" else "written"),
                             b["file"] if b else None, b["line"] if b else None))
     return r
+
+
+# ---------------------------------------------------------------------------
+# J8: what the publish step removes from the JSON before it is turned back into a message
+
+CLEANER_VOCAB = ("is_null", "is_empty", "as_object", "as_array", "is_some_and", "is_none_or", "map_or", "is_none",
+                 "is_some", "as_ref", "unwrap_or", "iter", "all", "any", "values", "len")
+
+
+def j8(rep, F):
+    """`clean_null_fields` (publish plugin) runs on the JSON of every message that is published. Its documented
+    effect is to remove nulls and containers emptied by that. Every construct in it that *selects* what is kept
+    (`filter` / `retain` closures, conditions of `if`s around an insert / push, match guards) may look only at
+    nullness and emptiness; a selector that looks at the *content* of a value (as_str, ==, a number test ..) makes
+    JSON -> MT drop data the model holds."""
+    r = rep.rule("J8", "the publish cleaner removes nulls only: every selecting condition in "
+                       "plugin::publish::clean_null_fields (filter / retain closures, if-conditions, match guards) "
+                       "is built from is_null / is_empty tests on the value or its container view, nothing that "
+                       "reads the content of a value", floor=4)
+    b = F.body_by_path.get("plugin::publish::clean_null_fields")
+    if b is None or "body" not in b:
+        rep.fail_closed("J8: plugin::publish::clean_null_fields not found")
+        return r
+    sels = []
+    for n in walk(b["body"]):
+        if n.get("k") == "mcall" and n.get("m") in ("filter", "retain", "filter_map", "take_while", "skip_while",
+                                                      "find", "position") and n.get("args"):
+            sels.append(("%s closure" % n["m"], n["args"][0], n.get("ln")))
+        if n.get("k") == "if":
+            sels.append(("if condition", n.get("cond"), n.get("ln")))
+        if n.get("k") == "match":
+            for a in n.get("arms") or []:
+                if a.get("guard") is not None:
+                    sels.append(("match guard", a["guard"], n.get("ln")))
+    for what, c, ln in sels:
+        r["instances"] += 1
+        bad = []
+        for x in walk(c):
+            if x.get("k") == "mcall" and x.get("m") not in CLEANER_VOCAB:
+                bad.append(x.get("m"))
+            if x.get("k") == "call" and not x.get("ctor") and not (x.get("f") or "").endswith(("::Some", "::None")):
+                bad.append((x.get("f") or "?").rsplit("::", 1)[-1])
+            if x.get("k") == "bin" and x.get("op") in ("==", "!=", "<", ">", "<=", ">="):
+                # comparing a length with a number is emptiness; anything else compares content
+                sides = [peel(x["l"]), peel(x["r"])]
+                if not any(isinstance(s_, dict) and s_.get("k") == "mcall" and s_.get("m") == "len" for s_ in sides):
+                    bad.append(x["op"])
+        if bad:
+            rep.add(Finding("J8", b["path"], "selector:%s" % ",".join(sorted(set(bad)))[:60],
+                            "the %s at line %s of clean_null_fields decides what is kept by `%s`: a value that is "
+                            "not null is removed from the JSON before it becomes a message again (JSON -> MT loses "
+                            "data the model holds)" % (what, ln, ", ".join(sorted(set(bad)))), b["file"], ln))
+    return r
